@@ -434,6 +434,11 @@ def main(argv):
         return mod.run(ctx)
     except Undecided as e:
         print("UNDECIDED %s: %s" % (a.id, e))
+        if ctx.violations and not a.replay:
+            # a later stage failed for infrastructure reasons, but confirmed violations were already
+            # found: report them (the evidence file records the undecided stage)
+            ctx.notes.append("a later stage was undecided: %s" % str(e)[:500])
+            return ctx.finish(rule="(run aborted by an undecided stage after violations were found)")
         shutil.rmtree(ctx.work, ignore_errors=True)
         return 2
 
